@@ -220,7 +220,7 @@ func workerMain(a workerArgs) int {
 		c := simkit.NewChoices(seed)
 		c.Limit = traceLimit
 		x := &simkit.Ctx{Stats: stats, Thorough: a.Thorough, Skip: skip, Beat: prog.beat}
-		v := cfg.Engine.Run(c, x)
+		v := runEngine(cfg, c, x)
 		stats.Runs++
 		stats.Steps += x.Clock
 		res.RunsDone++
@@ -234,7 +234,7 @@ func workerMain(a workerArgs) int {
 			c2 := simkit.NewChoices(seed)
 			c2.Limit = traceLimit
 			x2 := &simkit.Ctx{Stats: stats, Thorough: a.Thorough, Skip: skip, Beat: prog.beat}
-			v2 := cfg.Engine.Run(c2, x2)
+			v2 := runEngine(cfg, c2, x2)
 			stats.Frozen = false
 			res.Rechecked++
 			if runDigest(c2, x2, v2) != dg {
@@ -283,7 +283,7 @@ func shrinkAndSave(cfg *propCfg, a workerArgs, run uint64, trace []uint64, v *si
 		c := simkit.ReplayChoices(t)
 		c.Limit = traceLimit
 		x := &simkit.Ctx{Stats: stats, Thorough: a.Thorough, Skip: skip, Beat: prog.beat}
-		nv := cfg.Engine.Run(c, x)
+		nv := runEngine(cfg, c, x)
 		if nv != nil && nv.Class() == class && !c.Overflow {
 			best = nv
 			return true, c.Trace
@@ -364,7 +364,7 @@ func replayMain(path, progressPath, traceOut string) int {
 			prog.setRun(i)
 			pc := simkit.NewChoices(simkit.RunSeed(rf.VerifSeed, rf.Property, i))
 			pc.Limit = traceLimit
-			cfg.Engine.Run(pc, &simkit.Ctx{Stats: simkit.NewStats(), Thorough: rf.Thorough, Skip: skipMap(rf.Skip), Beat: prog.beat})
+			runEngine(cfg, pc, &simkit.Ctx{Stats: simkit.NewStats(), Thorough: rf.Thorough, Skip: skipMap(rf.Skip), Beat: prog.beat})
 		}
 		prog.setRun(rf.Run)
 	}
@@ -384,7 +384,7 @@ func replayMain(path, progressPath, traceOut string) int {
 	}
 	st := simkit.NewStats()
 	x := &simkit.Ctx{Stats: st, Thorough: rf.Thorough, Skip: skipMap(rf.Skip), Beat: prog.beat}
-	v := cfg.Engine.Run(c, x)
+	v := runEngine(cfg, c, x)
 	if v == nil {
 		fmt.Printf("REPLAY-CLEAN property=%s file=%s\n", rf.Property, path)
 		return 0
@@ -392,4 +392,19 @@ func replayMain(path, progressPath, traceOut string) int {
 	out, _ := json.MarshalIndent(v, "", " ")
 	fmt.Printf("REPLAY-VIOLATION property=%s class=%s\n%s\n", rf.Property, v.Class(), out)
 	return 1
+}
+
+// runEngine executes one run and adds the one oracle that lives in the seams
+// themselves: bytes that were only LENT to the library (the argument of
+// OnKeyRef / OnStringRef, the slice passed to Write) must come back unchanged.
+// It is reported for the properties that speak about memory the library does
+// not own (C14: never writes outside the target; C15: unsafe conversions stay
+// valid - a write through a string view); elsewhere the record is discarded.
+func runEngine(cfg *propCfg, c *simkit.Choices, x *simkit.Ctx) *simkit.Violation {
+	simkit.TakeInputModified()
+	v := cfg.Engine.Run(c, x)
+	if m := simkit.TakeInputModified(); m != "" && v == nil && (cfg.EngineName == "abandon" || cfg.EngineName == "alias") {
+		v = &simkit.Violation{Kind: "input-modified", Site: cfg.EngineName, Detail: m, Scenario: simkit.Current()}
+	}
+	return v
 }
